@@ -1,27 +1,38 @@
 """C15 — custom-width integer sample types never silently leave their range.
-Proof: coq/props/C15.v over coq/theories/Sample/TypesModel.v (a model of new_sample_type!/impl_neg!
+Proof: coq/props/C15.v over coq/theories/Sample/TypesModel.v (a model of new_sample_type!/impl_neg!/impl_from!
 written after the source) instantiated on the table coq/gen/TypesTable.v that translate/types2coq.py
-regenerates from the CURRENT dasp_sample/src/types.rs at every run.  Tie: the translator for the
-table; correspondence (model evaluated inside coqc vs the real types, debug and release builds)
-for everything else, plus an independent i128 oracle of the property inside the harness for the
-exhaustive 11-bit sweeps.  Four build configurations: dev, release, relchk (overflow checks without
-debug assertions) and dbgnochk (debug assertions without overflow checks)."""
-import json, os, sys
+regenerates from the CURRENT dasp_sample/src/types.rs at every run.  The operation BODIES of the three
+macros are regenerated as well (translate/typesops2coq.py -> coq/gen/TypesOpsGen.v, shallow Gallina over
+the machine integers of Sample/Rint.v) and proved equal to the hand model on all inputs
+(Sample/TypesGenEquiv.v, theorems c15_gen_*).  Tie: the two translators; correspondence (hand model
+evaluated inside coqc vs the real types) in four build configurations: dev, release, relchk (overflow
+checks without debug assertions) and dbgnochk (debug assertions without overflow checks), plus an
+independent i128 oracle of the property inside the harness for the exhaustive 11-bit sweeps.
+When a translator rejects the source or the equivalence no longer checks (DESIGN 5.1/5.3): the
+correspondence + the i128 oracle are the search for a failing input, the regenerated model is run against
+the hand model inside coqc, and the run ends in VIOLATION (with `no-failing-input-found` if none).
+TESTING ONLY: env DASP_TYPES_RS=<file> makes translators AND a scratch harness (under out/) use that file
+instead of /repo's types.rs."""
+import json, os, re, shutil, sys, time
 import framework as F
 
 sys.path.insert(0, os.path.join(F.VERIF, "translate"))
 import types2coq  # noqa: E402
+import typesops2coq  # noqa: E402
 
 PROP = "C15"
 META = dict(
-    technique="Coq proof over a generated constant table (translator) + coqc-evaluated model vs crate correspondence in the four combinations of debug-assertions and overflow-checks",
-    text="Machine-checked (Coq 8.16.1): for every row of the table generated from the eight new_sample_type! invocations, and for ANY row with MIN/MAX/TOTAL = the n-bit range and n+2 <= Rep bits, new succeeds exactly in range, From<Rep> terminates in range congruent mod 2^n, the widening From impls preserve the value, order is numeric order, and + - * and unary - on in-range operands return the exact result or panic (debug assertions on, overflow checks on or off) / never panic and return the representative mod 2^n in [MIN, MAX] (debug assertions off, overflow checks on or off). The hand-written model is tied to the crate by running it inside coqc on the same operations as the real types in four build profiles (dev, release, relchk, dbgnochk) (boundary x boundary pairs, random pairs, far out-of-range Rep values; exhaustive 2048^2 pairs for the 11-bit types in the thorough tier against an i128 oracle).",
-    note="Trusted: Coq kernel; translate/types2coq.py (table); the hand model of the macro bodies (validated by correspondence only); harness + generators. Build configuration is modelled as the two flags debug-assertions and overflow-checks; all theorems cover the four combinations (the two mixed ones since the repair of defect F8, /repo 45c5fdf). Axioms: none.",
+    technique="Coq proof over a constant table AND a model of the macro bodies, both regenerated from the source by translators at every run (the regenerated operations are proved equal to the hand model the property theorems are about) + coqc-evaluated model vs crate correspondence in the four combinations of debug-assertions and overflow-checks",
+    text="Machine-checked (Coq 8.16.1): for every row of the table generated from the eight new_sample_type! invocations, and for ANY row with MIN/MAX/TOTAL = the n-bit range and n+2 <= Rep bits, new succeeds exactly in range, From<Rep> terminates in range congruent mod 2^n, the widening From impls preserve the value, order is numeric order, and + - * and unary - on in-range operands return the exact result or panic (debug assertions on, overflow checks on or off) / never panic and return the representative mod 2^n in [MIN, MAX] (debug assertions off, overflow checks on or off). The bodies of new, wrap_overflow_once, wrap_overflow (both while loops, fuelled), From<Rep>, Add, Sub, Mul, Neg and the two impl_from! arms are parsed from the current types.rs at every run (strict recursive-descent parser, anything outside the subset is a translator error), emitted as Gallina over the framework's machine-integer semantics, and proved equal to the hand-written model on all inputs, all four configurations, every fuel (c15_gen_ops_agree, c15_gen_ops_agree_any_fuel; the property clauses restated for the regenerated operations: c15_gen_new, _from_rep, _arith_debug, _arith_release, _neg, _from_widening, _never_outside). The hand-written model is additionally tied to the crate by running it inside coqc on the same operations as the real types in four build profiles (dev, release, relchk, dbgnochk) (boundary x boundary pairs, random pairs, far out-of-range Rep values; exhaustive 2048^2 pairs for the 11-bit types in the thorough tier against an i128 oracle).",
+    note="Trusted: Coq kernel; translate/types2coq.py (table) and translate/typesops2coq.py (macro bodies -> Gallina; embedding Sample/TypesGenSem.v over Sample/Rint.v), both cross-checked by the correspondence of the (proved equal) hand model with the crate; harness + generators. The trait impls of the macro that the property does not mention (Div Not Rem Shl Shr BitAnd BitOr BitXor) are parsed up to their headers and listed, not translated. Build configuration is modelled as the two flags debug-assertions and overflow-checks; all theorems cover the four combinations (the two mixed ones since the repair of defect F8, /repo 45c5fdf). Axioms: none.",
     design="6/C15")
 HEADER = "From Dasp Require Import Sample.TypesRun."
 CHECK = "check"
-TYPES_RS = os.path.join(F.REPO, "dasp_sample", "src", "types.rs")
+TEST_TYPES = os.environ.get("DASP_TYPES_RS")   # TESTING ONLY: pretend /repo's types.rs were this file
+TYPES_RS = TEST_TYPES or os.path.join(F.REPO, "dasp_sample", "src", "types.rs")
 TABLE_V = os.path.join(F.COQ, "gen", "TypesTable.v")
+OPS_V = os.path.join(F.COQ, "gen", "TypesOpsGen.v")
+GEN_HEADER = "From Dasp Require Import Sample.TypesRun Sample.TypesGenRun."
 OPNAME = {0: "add", 1: "sub", 2: "mul"}
 # cargo profile of harness/Cargo.toml -> (debug-assertions, overflow-checks)
 PROFILES = {"dev": (True, True), "release": (False, False), "relchk": (False, True), "dbgnochk": (True, False)}
@@ -34,12 +45,24 @@ ROWS = []   # rows of the current table (set by main/replay), table index -> nam
 
 
 def regenerate():
-    """(rows or None, error or None, rewritten?)  — the table file is rewritten only if its content changed"""
+    """(rows or None, table error or None, ops dict) — coq/gen/TypesTable.v and coq/gen/TypesOpsGen.v are
+    rewritten only if their content changed; on a translator error the committed file (last good
+    translation) is kept.  ops = {error, rewritten, functions, unmodelled}"""
+    rows, terr, rewritten = None, None, False
     try:
         text, rows = types2coq.translate(TYPES_RS)
+        rewritten = F.write_if_changed(TABLE_V, text)
     except (types2coq.TranslateError, OSError) as e:
-        return None, f"{type(e).__name__}: {e}", False
-    return rows, None, F.write_if_changed(TABLE_V, text)
+        terr = f"{type(e).__name__}: {e}"
+    ops = {"error": None, "rewritten": False, "table_rewritten": rewritten, "functions": [], "unmodelled": []}
+    try:
+        otext, tr = typesops2coq.translate(TYPES_RS)
+        ops["rewritten"] = F.write_if_changed(OPS_V, otext)
+        ops["functions"] = [f"g_{k}" for k in tr["order"]]
+        ops["unmodelled"] = list(tr["unmodelled"])
+    except (types2coq.TranslateError, OSError) as e:
+        ops["error"] = f"{type(e).__name__}: {e}"
+    return rows, terr, ops
 
 
 def fallback_rows():
@@ -280,6 +303,185 @@ def is_nontrivial(row, op):
     return False
 
 
+
+# ---------------------------------------------------------------------------
+# TESTING ONLY: DASP_TYPES_RS simulates an edited /repo/dasp_sample/src/types.rs for translators AND harness
+
+
+def scratch_bins():
+    """a copy of dasp_sample with types.rs replaced + a one-binary harness crate, under out/ (never touches /repo)"""
+    root = F.ensure_dir(os.path.join(F.OUT, "c15_scratch"))
+    ds = os.path.join(root, "dasp_sample")
+    if os.path.exists(ds):
+        shutil.rmtree(ds)
+    shutil.copytree(os.path.join(F.REPO, "dasp_sample"), ds)
+    shutil.copy(TEST_TYPES, os.path.join(ds, "src", "types.rs"))
+    h = os.path.join(root, "harness")
+    F.ensure_dir(os.path.join(h, "src", "bin"))
+    shutil.copy(os.path.join(F.HARNESS, "src", "lib.rs"), os.path.join(h, "src", "lib.rs"))
+    shutil.copy(os.path.join(F.HARNESS, "src", "bin", "c15.rs"), os.path.join(h, "src", "bin", "c15.rs"))
+    F.write_if_changed(os.path.join(h, "Cargo.toml"),
+                       '[package]\nname = "dasp_verif_harness"\nversion = "0.0.0"\nedition = "2018"\npublish = false\n\n[workspace]\n\n'
+                       f'[dependencies]\ndasp_sample = {{ path = "{ds}" }}\n\n'
+                       '[profile.dev]\nopt-level = 1\ndebug = false\noverflow-checks = true\ndebug-assertions = true\n\n'
+                       '[profile.release]\nopt-level = 2\ndebug = false\noverflow-checks = false\ndebug-assertions = false\n\n'
+                       '[profile.relchk]\ninherits = "release"\noverflow-checks = true\ndebug-assertions = false\n\n'
+                       '[profile.dbgnochk]\ninherits = "dev"\noverflow-checks = false\ndebug-assertions = true\n')
+    bins = {}
+    for prof in PROFILES:
+        cmd = ["cargo", "build", "--offline", "--quiet", "--bin", "c15"] + ([] if prof == "dev" else ["--release"] if prof == "release" else ["--profile", prof])
+        env = {"RUSTFLAGS": f"--cfg {F.GUARD}", "CARGO_TARGET_DIR": os.path.join(h, "target")}
+        rc, out = F.sh(cmd, cwd=h, env=env, timeout=1500)
+        path = os.path.join(h, "target", "debug" if prof == "dev" else prof, "c15")
+        if rc != 0 or not os.path.exists(path):
+            return None, prof, out
+        bins[prof] = path
+    return bins, None, ""
+
+
+def build_bins():
+    """({profile: path} or None, failing profile, log)"""
+    if TEST_TYPES:
+        return scratch_bins()
+    bins = {}
+    for prof in PROFILES:
+        ok, blog, path = F.harness_build("c15", profile=prof)
+        if not ok:
+            return None, prof, blog
+        bins[prof] = path
+    return bins, None, ""
+
+
+# ---------------------------------------------------------------------------
+# proof phase; a broken obligation is reported after the search for a failing input (DESIGN 5.1)
+
+
+def broken_lemma(log):
+    """every error `make` reported: file, line, enclosing lemma; generated files first"""
+    found = []
+    for m in re.finditer(r'File "\./([^"]+)", line (\d+), characters[^\n]*\n((?:(?!File "|make).*\n){0,6})', log):
+        path, line = m.group(1), int(m.group(2))
+        lemma = None
+        mm = re.search(r"\(in proof ([\w']+)\)", m.group(3))
+        if mm:
+            lemma = mm.group(1)
+        else:
+            try:
+                src = open(os.path.join(F.COQ, path)).read().split("\n")
+                for l in range(min(line, len(src)) - 1, -1, -1):
+                    mm = re.match(r"\s*(?:Lemma|Theorem|Example|Definition|Fixpoint)\s+([\w']+)", src[l])
+                    if mm:
+                        lemma = mm.group(1)
+                        break
+            except OSError:
+                pass
+        if "Warning" in m.group(3).split("\n")[0]:
+            continue
+        found.append(dict(file="coq/" + path, line=line, lemma=lemma, message=" ".join(m.group(3).split())[:400]))
+    if not found:
+        return dict(file=None, line=None, lemma=None, message=log[-1500:], all=[])
+    found.sort(key=lambda f: 0 if "/gen/" in f["file"] else 1)
+    return dict(found[0], all=[f"{b['file']}:{b['line']} {b['lemma']}" for b in found])
+
+
+def proof_phase(rep):
+    t = time.time()
+    ok, log = F.coq_prop_build(PROP)
+    info = {"coq_ok": ok, "theorems": [], "axioms": [], "broken": None}
+    if not ok:
+        info["broken"] = broken_lemma(log)
+        info["log_tail"] = log[-3000:]
+    else:
+        problems, ainfo = F.coq_audit(PROP, log, frozenset())
+        info.update(ainfo)
+        if problems:
+            rep.violation("audit", {"kind": "audit of the Coq development failed", "problems": problems}, no_input=True)
+    info["coq_s"] = round(time.time() - t, 1)
+    return info
+
+
+def parse_zll(out):
+    """the list (list Z) printed by `Eval vm_compute` (None if there is none)"""
+    m = re.search(r"=\s*(\[.*\])\s*:\s*list \(list Z\)", out, re.S)
+    if not m:
+        return None
+    return [[int(x) for x in re.findall(r"-?\d+", g)] for g in re.findall(r"\[([^\[\]]*)\]", m.group(1))]
+
+
+def model_search(items, table_rows, bins):
+    """DESIGN 5.1(a) for C15: the model REGENERATED from the current macro bodies, run inside coqc
+    - against the hand model on every case of this run (no implementation involved): the cases where they
+      differ, shrunk to one operation, with both observations and the property's verdict on the regenerated one;
+    - against the crate's observations (does the regenerated model follow the source?).
+    Needs coq/gen/TypesOpsGen.v to compile (it does whenever the translator accepted the source); it does not
+    need the equivalence proof."""
+    res = {"ran": False}
+    ok, log = F.coq_make("theories/Sample/TypesGenRun.vo")
+    if not ok:
+        res["error"] = "the regenerated model does not compile: " + log[-1500:]
+        return res, []
+    res["ran"] = True
+    bad, errs = F.coq_check_cases("c15_gen", GEN_HEADER, "check_gen", [it["coq"] for it in items], per_file=400)
+    res["cases"] = len(items)
+    res["cases_where_regenerated_model_differs_from_hand_model"] = len(bad)
+    if errs:
+        res["errors"] = [f"{n}: {m[-300:]}" for n, m in errs[:3]]
+
+    def differs(c):
+        b, e = F.coq_check_cases("c15_gen_shrink", GEN_HEADER, "check_gen", [c["coq"]])
+        return bool(b) and not e
+
+    witnesses = []
+    seen = set()
+    for idx in bad:
+        it = items[idx]
+        key = (it["prof"], it["ty"], it["ops"][0][0])
+        if key in seen or len(witnesses) >= 4:
+            continue
+        seen.add(key)
+        ops = [sop for op in it["ops"] for sop in (expand_grid(op) if op[0] == "grid" else [op])]
+        if len(ops) != len(it["ops"]):
+            it2 = build(it, ops)
+            it = it2 if differs(it2) else it
+        small = F.shrink_ops(it, build, differs)
+        _, g = F.coq_eval("c15_gen", GEN_HEADER, f"run_case_gen ({small['coq']})")
+        _, h = F.coq_eval("c15_gen", GEN_HEADER, f"run_case ({small['coq']})")
+        gobs, hobs = parse_zll(g), parse_zll(h)
+        da, oc = PROFILES[small["prof"]]
+        msgs = []
+        if gobs is not None and len(gobs) == len(small["ops"]):
+            for op, ob in zip(small["ops"], gobs):
+                if op[0] == "grid":
+                    continue
+                if ob == [-4]:
+                    msgs.append(f"{op}: a `while` loop of the regenerated model does not terminate within fuel_args iterations")
+                    continue
+                mv = verdict(table_rows[small["ty"]], da, op, ob)
+                if mv:
+                    msgs.append(mv)
+        witnesses.append({"type": table_rows[small["ty"]]["name"], "profile": small["prof"], "debug_assertions": da, "overflow_checks": oc,
+                          "case": {k: small[k] for k in ("prof", "ty", "ops")}, "harness_line": small["line"],
+                          "regenerated_model_observations": gobs if gobs is not None else g[-800:],
+                          "hand_model_observations": hobs if hobs is not None else h[-800:],
+                          "property_verdict_on_regenerated_model": msgs or "passes (the two models differ only on what the property leaves open)"})
+    res["witnesses"] = len(witnesses)
+    # the regenerated model against the crate: first the cases where the two models differ (does the crate follow
+    # the regenerated model or the hand model there?), then a sample of the others
+    vs = {}
+    badset = set(bad)
+    for prof in PROFILES:
+        idxs = [i for i, it in enumerate(items) if it["prof"] == prof]
+        part = [items[i] for i in idxs if i in badset][:100] + [items[i] for i in idxs if i not in badset][:60]
+        if not part or bins is None:
+            continue
+        outl, b2, e2 = F.correspond(bins[prof], part, GEN_HEADER, "check_gen_obs", "c15_genobs_" + prof, per_file=400)
+        vs[prof] = {"cases": len(part), "of_which_the_two_models_differ": len([i for i in idxs if i in badset][:100]),
+                    "disagreements": len(b2), "errors": len(e2),
+                    "first_disagreements": [{"harness_line": part[i]["line"][:300], "crate": outl[i][:300]} for i in b2[:2]]}
+    res["regenerated_model_vs_crate"] = vs
+    return res, witnesses
+
+
 # ---------------------------------------------------------------------------
 
 
@@ -344,23 +546,25 @@ def flat_obs(it, ol_full):
 
 def main(rep, tier, seed):
     rng = F.Rng(seed)
-    rows, terr, rewritten = regenerate()
-    info = F.standard_proof_phase(rep, PROP)
+    rows, terr, genops = regenerate()
+    if TEST_TYPES:
+        rep.notes.append(f"note: DASP_TYPES_RS={TEST_TYPES} (testing mode: the translators and a scratch copy of dasp_sample + harness under out/ use this file instead of /repo's types.rs)")
+    info = proof_phase(rep)
+    info["ops"] = genops
     # the executable model does not depend on the proofs: build it even if a proof broke
     okr, rlog = F.coq_make("theories/Sample/TypesRun.vo")
     if not okr:
         rep.violation("model_build", {"kind": "the executable model does not compile against the regenerated table",
                                       "log_tail": rlog[-3000:]}, no_input=True)
+        report_broken(rep, info, terr, genops, False, None, [])
         return finish(rep, info, tier, 0, 0, 0, {}, [], [])
-    bins = {}
-    for prof in PROFILES:
-        ok, blog, path = F.harness_build("c15", profile=prof)
-        if not ok:
-            rep.violation("harness_build_" + prof,
-                          {"kind": "harness does not build against /repo (a public item the property speaks about is missing or changed type)",
-                           "log": blog[-4000:]}, no_input=True)
-            return finish(rep, info, tier, 0, 0, 0, {}, [], [])
-        bins[prof] = path
+    bins, bad_prof, blog = build_bins()
+    if bins is None:
+        rep.violation("harness_build_" + bad_prof,
+                      {"kind": "harness does not build against /repo (a public item the property speaks about is missing or changed type)",
+                       "log": blog[-4000:]}, no_input=True)
+        report_broken(rep, info, terr, genops, False, None, [])
+        return finish(rep, info, tier, 0, 0, 0, {}, [], [])
     table_rows = rows if rows is not None else fallback_rows()
     ROWS[:] = table_rows
     corpus = load_corpus()
@@ -438,17 +642,50 @@ def main(rep, tier, seed):
                 "case": {"prof": prof, "ty": part[idx]["ty"], "ops": [op]}, "observed": ob})
     dist = {"ops_histogram": hist, "corpus_cases": len(corpus), "harness_lines": len(items),
             "profiles": {k: {"debug_assertions": v[0], "overflow_checks": v[1]} for k, v in PROFILES.items()},
-            "table_rewritten_this_run": rewritten}
-    if tier == "thorough":
+            "table_rewritten_this_run": genops["table_rewritten"], "ops_model_rewritten_this_run": genops["rewritten"]}
+    broken = bool(terr or genops["error"] or not info["coq_ok"])
+    if tier == "thorough" or broken:   # the i128 oracle is part of the search for a failing input (DESIGN 5.1(b))
         n_eval += exhaustive(rep, bins, table_rows, dist)
         found_input = found_input or any("exhaustive_" in v and "no-failing-input-found" not in v for v in rep.violations)
-    if terr:
-        rep.violation("translator", {
-            "kind": "model table cannot be regenerated: translate/types2coq.py does not recognise the current dasp_sample/src/types.rs",
-            "error": terr, "note": "the committed coq/gen/TypesTable.v (last good translation) was used for the proofs and the correspondence; "
-                                   + ("a failing input was found, see the other violation(s)" if found_input else "the search over the structured inputs found no failing input")},
-            no_input=not found_input)
+    search, witnesses = None, []
+    if not info["coq_ok"]:
+        search, witnesses = model_search(items, table_rows, bins)
+        dist["regenerated_model_search"] = search
+    report_broken(rep, info, terr, genops, found_input, search, witnesses)
     return finish(rep, info, tier, len(items), n_eval, len(nontriv), dist, samples, bad_total)
+
+
+def report_broken(rep, info, terr, ops, found_input, search, witnesses):
+    """the VIOLATION lines of DESIGN 5.1 / 5.3: translator error, broken proof obligation; `no-failing-input-found`
+    unless the correspondence / oracle found an input on the crate or the regenerated model itself violates the
+    property's verdict on a concrete input"""
+    model_found = False
+    for k, w in enumerate(witnesses):
+        viol = isinstance(w["property_verdict_on_regenerated_model"], list)
+        if viol and not found_input:
+            model_found = True
+            rep.violation(f"regenerated_model_{w['type']}_{w['profile']}_{k}", dict(
+                kind="the model regenerated from the macro bodies of types.rs violates the property on this input (the search on the crate itself found nothing: the harness was built from another tree, or translator and source disagree)",
+                **w, replay="./check.py C15 --replay <this file>"))
+    found = found_input or model_found
+    if terr or ops["error"]:
+        rep.violation("translator", {
+            "kind": "model cannot be regenerated: the translators do not recognise the current dasp_sample/src/types.rs",
+            "table_translator_error (translate/types2coq.py)": terr, "macro_body_translator_error (translate/typesops2coq.py)": ops["error"],
+            "note": "the committed coq/gen/TypesTable.v / coq/gen/TypesOpsGen.v (last good translation) were used for the proofs; the correspondence of the hand model with the crate in the four profiles, the direct verdict of the property and the exhaustive 11-bit i128 oracle were the search for a failing input: "
+                    + ("a failing input was found, see the other violation(s)" if found else "no failing input was found")},
+            no_input=not found)
+    if not info["coq_ok"]:
+        b = info.get("broken") or {}
+        rep.violation("proof_broken", {
+            "kind": "proof obligation no longer checks", "target": "coq/props/C15.vo",
+            "broken_lemma": b.get("lemma"), "file": b.get("file"), "line": b.get("line"), "coq_message": b.get("message"),
+            "all_errors": b.get("all"), "regenerated_files_rewritten": {"TypesTable.v": ops["table_rewritten"], "TypesOpsGen.v": ops["rewritten"]},
+            "meaning": ("a lemma of Sample/TypesGenEquiv.v fails: the model regenerated from the macro bodies of the current types.rs is no longer (provably) the hand model that the theorems of props/C15.v are about"
+                        if "TypesGenEquiv" in str(b.get("file")) or "TypesGenExamples" in str(b.get("file")) else "see coq_message"),
+            "search": search, "model_level_witnesses": witnesses,
+            "result": "a failing input was found, see the other violation(s)" if found else "no failing input was found on the crate (correspondence in four profiles, property verdict, exhaustive 11-bit oracle) nor on the regenerated model",
+            "log_tail": info.get("log_tail")}, no_input=not found)
 
 
 def load_corpus():
@@ -465,17 +702,22 @@ def finish(rep, info, tier, ncases, n, nontriv, dist, samples, bad=0):
     th = info.get("theorems", [])
     cov = {
         "obligations": max(1, len(th)), "discharged": len(th) if info.get("coq_ok") else 0,
-        "checker_cmd": "translate/types2coq.py /repo/dasp_sample/src/types.rs > coq/gen/TypesTable.v; make -f Makefile.coq props/C15.vo (coqc 8.16.1, full .vo) + Print Assumptions audit",
+        "checker_cmd": "translate/types2coq.py /repo/dasp_sample/src/types.rs > coq/gen/TypesTable.v; translate/typesops2coq.py /repo/dasp_sample/src/types.rs > coq/gen/TypesOpsGen.v; make -f Makefile.coq props/C15.vo (coqc 8.16.1, full .vo) + Print Assumptions audit",
         "trusted_base": F.TRUSTED_COMMON + [
             "translate/types2coq.py: reads Rep/eq/min/max/total/from-lists/impl_neg! of the eight invocations (its output is cross-checked against MIN/MAX/EQUILIBRIUM and the From/Neg impls the harness can call)",
-            "the hand-written model of the macro bodies (new, wrap_overflow, wrap_overflow_once, Add/Sub/Mul/Neg, impl_from!) — validated through the correspondence only",
+            "translate/typesops2coq.py: strict parser of the bodies of new_sample_type!/impl_neg!/impl_from! (new, wrap_overflow_once, wrap_overflow, From<Rep>, Add, Sub, Mul, Neg, both impl_from! arms; impl_froms! and the macro argument patterns pinned token by token; derive(PartialEq, Eq, PartialOrd, Ord) on the one-field struct required) and its embedding Sample/TypesGenSem.v over Sample/Rint.v. The hand-written model (Sample/TypesModel.v) is no longer trusted on its own: Sample/TypesGenEquiv.v proves it equal to the regenerated model on all inputs; both are cross-checked by the correspondence with the crate",
+            "not translated (outside the property, headers parsed, listed in coq/gen/TypesOpsGen.v): the Div Not Rem Shl Shr BitAnd BitOr BitXor impls of the macro",
             "build configuration = the two flags debug-assertions / overflow-checks; the four combinations are the cargo profiles dev, release, relchk, dbgnochk of harness/Cargo.toml",
             "axioms: none (every theorem of props/C15.v is closed under the global context)"],
         "theorems": th, "axioms_reported": info.get("axioms", []),
+        "regenerated_model": {"file": "coq/gen/TypesOpsGen.v", "functions": info.get("ops", {}).get("functions", []),
+                              "translator_error": info.get("ops", {}).get("error"), "rewritten_this_run": info.get("ops", {}).get("rewritten"),
+                              "equivalence": "Sample/TypesGenEquiv.v: gen_ops_agree, gen_ops_agree_any_fuel (props: c15_gen_*)",
+                              "impls_not_translated": info.get("ops", {}).get("unmodelled", [])},
         "evaluations": n, "cases": ncases, "distinct_nontrivial": nontriv,
         "rule": "per type and per profile (dev, release, relchk, dbgnochk): every pair of ~64 boundary values x {add, sub, mul} (as grid ops: model and harness hash their observations; the direct verdict reads them all; 48-bit mul without debug assertions: a sample, the model walks the wrap loop), random structured pairs, new/From<Rep> on in-range, near-range, multiples of TOTAL, Rep extremes and random Rep values, every widening From on the source's boundary values, negation of every boundary value, comparisons; thorough adds every i16 value through new/From for the 11-bit types and all 2048^2 pairs x 3 ops x 2 types x 4 profiles against the in-harness i128 oracle. non-trivial = distinct operation whose exact result (or constructor argument) is outside [MIN, MAX], i.e. the panic / wrap branch is taken",
         "samples": samples, "input_distribution": dist, "disagreements": bad,
-        "explanation": "theorems: the model satisfies C15 for every row of the generated table (and for any well-formed row); tie: translator for the table, model run by coqc on the same operations as the real types in the four profiles, all observations compared exactly, plus a direct python/i128 verdict of the property on every observation",
+        "explanation": "theorems: the model satisfies C15 for every row of the generated table (and for any well-formed row), and the model regenerated from the macro bodies at this run equals it on all inputs (c15_gen_*); tie: translators for the table and for the operation bodies, hand model run by coqc on the same operations as the real types in the four profiles, all observations compared exactly, plus a direct python/i128 verdict of the property on every observation",
     }
     return rep.finish("proof", cov, [
         "build configuration is the pair (debug-assertions, overflow-checks); other codegen options are assumed not to change integer semantics",
@@ -489,7 +731,11 @@ def replay(path):
     rows = rows or fallback_rows()
     ROWS[:] = rows
     it = build(j["case"])
-    ok, blog, binpath = F.harness_build("c15", profile=it["prof"])
+    if TEST_TYPES:
+        bins, _, blog = scratch_bins()
+        binpath = bins[it["prof"]] if bins else None
+    else:
+        ok, blog, binpath = F.harness_build("c15", profile=it["prof"])
     rc, out, _ = F.run_bin(binpath, [it["line"]], args=("full",))
     _, model = F.coq_eval("c15", HEADER, f"run_case ({it['coq']})")
     da, oc = PROFILES[it["prof"]]
